@@ -1,5 +1,25 @@
 (** C18 — installing a debugger stepper does not change what programs compute. *)
-From Lisp Require Import Base Value Core Binder Env Eval Interp Boot EvalProofs Run.
+From Lisp Require Import Base Value Core Binder Env Eval Interp Boot EvalProofs Run StepperSim.
+
+(** THE property, for every program, scope, state, fuel and every script of the four commands: evaluating with a
+    Stepper installed gives the outcome of evaluating without one, and the two final states are equal up to the
+    debugger's own flags — same scopes and bindings, same atoms, same ordered trace of effects *)
+Theorem C18_stepper_does_not_change_evaluation : forall n d ast env st,
+  nobad st ->
+  fst (eval_dbg n d ast env st) = fst (eval n d ast env (strip st)) /\
+  snd (eval n d ast env (strip st)) = strip (snd (eval_dbg n d ast env st)).
+Proof. exact stepper_does_not_change_evaluation. Qed.
+
+Theorem C18_same_effects : forall n d ast env st,
+  nobad st -> trace (snd (eval_dbg n d ast env st)) = trace (snd (eval n d ast env (strip st))) /\
+              atoms (snd (eval_dbg n d ast env st)) = atoms (snd (eval n d ast env (strip st))) /\
+              heap (snd (eval_dbg n d ast env st)) = heap (snd (eval n d ast env (strip st))).
+Proof. exact stepper_same_trace. Qed.
+
+(** the premise: any script over NoOp / Next / In / Out, from any starting flags *)
+Theorem C18_every_script_of_the_four_commands : forall st cs,
+  forallb okcmd cs = true -> nobad (set_dbg st (Some (mkDbg false false false cs []))).
+Proof. exact nobad_script. Qed.
 
 (** the debugger section of EVAL (callback, skip/outing flags, deferred resets) only decides
     whether the callback is consulted: the outcome of the invocation is the outcome of the rest
@@ -49,6 +69,8 @@ Example C18_same_result_with_script :
   fst plain = Ok (VList [sy "+"; VInt 1; VInt 2] None).
 Proof. vm_compute. repeat split; reflexivity. Qed.
 
+Print Assumptions C18_stepper_does_not_change_evaluation.
+Print Assumptions C18_same_effects.
 Print Assumptions C18_debugger_section_keeps_outcome.
 Print Assumptions C18_do_hook_keeps_outcome.
 Print Assumptions C18_callback_gets_form_and_scope.
